@@ -281,6 +281,32 @@ macro_rules! zst_harnesses {
                 assert!(bb.len() == len, "C16: boxed slice of zero-sized elements must keep its length through the owned view");
                 kani::cover!(len == N);
             }
+
+            // mutable views: over a stack array and over a heap-backed slice (whose data pointer is the dangling sentinel)
+            #[kani::proof]
+            #[kani::unwind(6)]
+            fn zst_mut_lengths_roundtrip() {
+                let mut arr: [T; N] = [$v; N];
+                let len: usize = kani::any();
+                kani::assume(len <= N);
+                let heap: bool = kani::any();
+                let mut bx: Box<[T]> = match len {
+                    0 => Box::new([]) as Box<[T]>,
+                    1 => Box::new([$v]) as Box<[T]>,
+                    2 => Box::new([$v, $v]) as Box<[T]>,
+                    3 => Box::new([$v, $v, $v]) as Box<[T]>,
+                    _ => Box::new([$v; N]) as Box<[T]>,
+                };
+                let src: &mut [T] = if heap { &mut bx[..] } else { &mut arr[..len] };
+                let mut v: DiplomatSliceMut<T> = src.into();
+                let raw: RawView<T> = unsafe { core::mem::transmute_copy(&v) };
+                assert!(raw.len == len, "C16: mutable view of zero-sized elements must keep its length");
+                assert!((&*v).len() == len && (&mut *v).len() == len);
+                let back: &mut [T] = v.into();
+                assert!(back.len() == len, "C16: mutable slice of zero-sized elements must keep its length through the view");
+                kani::cover!(heap && len == N);
+                kani::cover!(!heap && len == 1);
+            }
         }
     };
 }
